@@ -38,7 +38,7 @@ RULE = ("val cases: valid signed operations for () / Node Basic / Node Causal ex
         "every single-field mutation from a value pool (version, author key, payload size/hash, seq, backlink, every extension field, "
         "signature removed/garbage/bit flip, signed by another key, body replaced / attached / removed / empty), plus correctly signed "
         "operations with arbitrary (inconsistent) field values, prune flag off with seq > 0, and double ingest; byte cases: single-byte "
-        "xor at every offset of the encoded header and body (thorough: 3 masks, plus deletion/insertion at every offset). "
+        "xor at every offset of the encoded header and body (quick: 2 Node-extension operations, one random mask per offset; thorough: 8 operations of all extension kinds, 3 masks, plus deletion/insertion at every offset). "
         "non-trivial = the operation reached validate_operation (decoded)")
 NONTRIVIAL_FLOOR = 100
 
@@ -139,7 +139,7 @@ def _ext_kinds(tier):
 
 
 def gen(tier, rng):
-    reps = 1 if tier == "quick" else 4
+    reps = 1 if tier == "quick" else 2
     bases = []
     for _ in range(reps):
         for kind in _ext_kinds(tier):
@@ -163,7 +163,7 @@ def gen(tier, rng):
                     # signature
                     yield _case(h, h, body, sig="none", note="sig-none")
                     yield _case(h, h, body, sig="garbage", note="sig-garbage")
-                    for i in ([0, 31, 32, 63] if tier == "quick" else range(64)):
+                    for i in ([0, 63] if tier == "quick" else range(64)):
                         yield _case(h, h, body, sig="flip%d" % i, note="sig-flip")
                     yield _case(h, h, body, signer=_other(rng, h["key"], range(KEYS)), note="wrong-signer")
                     # body
@@ -178,7 +178,8 @@ def gen(tier, rng):
     # byte-level
     masks = (lambda: [rng.choice([1, 2, 4, 8, 16, 32, 64, 128, 255, rng.randrange(1, 256)])]) if tier == "quick" else \
         (lambda: [1, 128, rng.randrange(2, 255)])
-    sel = [b for b in bases if b[1] is not None and b[0]["seq"] > 0][:3] if tier == "quick" else bases
+    sel = [b for b in bases if b[1] is not None and b[0]["seq"] > 0 and b[0]["ext"]["kind"] != "unit"][:2] if tier == "quick" else \
+        [b for b in bases if b[1] is not None and b[0]["seq"] > 0] + [b for b in bases if b[1] is None and b[0]["seq"] == 0][:2]
     for h, body in sel:
         n = _header_len(h)
         for pos in range(n):
@@ -353,21 +354,21 @@ def coq_oracle(case, impl):
         second = "None"
         if "ing2" in f:
             o2, t2 = _rows(f["rows2"])
-            second = "(Some (%s, %d, %d))" % (_icls(f["ing2"]), o2, t2)
-        return "check_val %s %s %s %s %s %s %d %d %d %d %s" % (
+            second = "(Some (%s, %d%%N, %d%%N))" % (_icls(f["ing2"]), o2, t2)
+        return "check_val %s %s %s %s %s %s %d%%N %d%%N %d%%N %d%%N %s" % (
             _b(case["prune"]), _coq_header(case["hdr"], _sig_term(case)), _coq_body(case["body"]), _b(f["val"] == "OK"),
             _icls(f["ing"]), _b(f["has"] == "1"), ob, tb, oa, ta, second)
     parts = impl.split(" | ")
     base_new = _b(parts[0] == "base=NEW")
     if parts[1] == "NODEC":
-        return "check_byte %s None IRej false false 0 0 0 0" % base_new
+        return "check_byte %s None IRej false false 0%%N 0%%N 0%%N 0%%N" % base_new
     hd, _, body = parts[1][4:].rpartition(" body=")
     f, (ob, tb), (oa, ta) = _verdict(parts[2])
     cls = "None" if f["val"] == "OK" else "(Some %s)" % f["val"]
     if f["val"] != "OK" and f["val"] not in _ERRS:
         raise ValueError(f["val"])
     bterm = "None" if body == "-" else "(Some %s)" % enc._hx(enc._unbw(body))
-    return "check_byte %s (Some (%s, %s, %s)) %s %s %s %d %d %d %d" % (
+    return "check_byte %s (Some (%s, %s, %s)) %s %s %s %d%%N %d%%N %d%%N %d%%N" % (
         base_new, _sym_header(hd, case), bterm, cls, _icls(f["ing"]), _b(f["has"] == "1"), _b(f["same"] == "1"), ob, tb, oa, ta)
 
 
